@@ -201,3 +201,44 @@ func H_names_concrete() {
 	verifAssert(ok2 && self.Name == p, "events on the watched path itself carry the cleaned Add argument")
 	verifReach("names-concrete")
 }
+
+func verifDeliverNamed(w *inotify, wd uint32, mask, cookie uint32, name string) (Event, bool) {
+	var buf [65536]byte
+	ev := (*unix.InotifyEvent)(unsafe.Pointer(&buf[0]))
+	ev.Wd = int32(wd)
+	ev.Mask = mask
+	ev.Cookie = cookie
+	ev.Len = uint32((len(name)/16 + 1) * 16)
+	copy(buf[16:], name)
+	return w.handleEvent(ev, &buf, 0)
+}
+
+// C11: API calls between the two halves of a move (on other watches, or on the
+// source directory's watch itself) do not make the Create lose its old name.
+func H_cookie_ops_between() {
+	verifKReset()
+	w := verifNewInotify(0)
+	verifSetupTable(w, 3) // "/t", "/t/a", "/u/b"
+	verifK.nIno = 4
+	c := verifU32("cookie")
+	verifAssume(c != 0)
+	src := verifChoose("src", 3)
+	dst := verifChoose("dst", 3)
+	ev1, ok1 := verifDeliverNamed(w, verifTable[src].wd, unix.IN_MOVED_FROM, c, "x")
+	verifAssert(ok1 && ev1.Op == Rename && ev1.Name == verifTable[src].path+"/x", "first half")
+	// something else happens in between
+	other := verifChoose("other", 3)
+	verifAssume(other != dst)
+	switch verifChoose("between", 3) {
+	case 0:
+		_ = w.Remove(verifTable[other].path)
+	case 1:
+		_ = w.Add("/new")
+	case 2:
+		_, _ = verifDeliver(w, verifTable[other].wd, unix.IN_MODIFY, 0)
+	}
+	ev2, ok2 := verifDeliverNamed(w, verifTable[dst].wd, unix.IN_MOVED_TO, c, "y")
+	verifAssert(ok2 && ev2.Op == Create && ev2.Name == verifTable[dst].path+"/y", "second half")
+	verifAssert(ev2.renamedFrom == ev1.Name, "the Create of a move identifies the old name whatever API calls happened between its two halves")
+	verifReach("cookie-ops-between")
+}
